@@ -106,13 +106,41 @@ def c19_1(ctx):
     ctx.check(ok, 'wellformed:operand-set-exists', om.site(), 'a reference to an undeclared operand set is rejected', '')
     _exit_guard(ctx, om, lambda t: t == "'list' not in self._config", 'wellformed:operand-set-list', 'operand_sets without a list is rejected')
     va = ctx.repo.func(OP + '.OperandParser.validate')
-    h = _exit_guard(ctx, va, lambda t: 'operand_count' in t, 'wellformed:count=number-of-sets', 'an operand count that differs from the number of operand sets is rejected')
+    h = _exit_guard(ctx, va, lambda t: 'operand_count' in t and '_operand_sets_model' in t, 'wellformed:count=number-of-sets', 'an operand count that differs from the number of operand sets is rejected')
     for i in h:
         rv = resolver(ctx, va, inline=False)
         cl = to_cnf(i.test, True, rv)
         ok = frozenset({lit_cmp(ctx, va, 'self.operand_count != self._operand_sets_model.operand_count', rv)}) in cl and \
             frozenset({('isnone', 'self._operand_sets_model', False)}) in cl and len(cl) == 2
         ctx.check(ok, 'wellformed:count=number-of-sets:exact', va.site(i), 'rejected exactly when count != number of sets', unparse(i.test))
+    # explicitly listed operand combinations: each has as many operands as the count says
+    from engine.helpers import seq_view
+    hs = [i for i in ast.walk(va.node) if isinstance(i, ast.If) and body_only_aborts(i.body) and '_operand_sets_model' not in unparse(i.test) and 'operand_count' in unparse(i.test)]
+    ok = len(hs) == 1
+    if ok:
+        rv = resolver(ctx, va, inline=False)
+        fcl = filter_facts_at(ctx, va, hs[0], rv)
+        loops = [l for l in walk_no_nested(va.node) if isinstance(l, ast.For) and any(x is hs[0] for x in ast.walk(l))]
+        ok = len(loops) == 1 and unparse(loops[0].iter) == 'self._specific_operands_model.operand_counts' \
+            and to_cnf(hs[0].test, True, rv) == [frozenset({lit_cmp(ctx, va, f'{unparse(loops[0].target)} != self.operand_count', rv)})] \
+            and fcl == [frozenset({('isnone', 'self._specific_operands_model', False)})]
+    ctx.check(ok, 'wellformed:count=length-of-specific-combinations', va.site(hs[0]) if hs else va.site(),
+              'an explicitly listed operand combination whose length differs from the operand count is rejected', '; '.join(unparse(i.test) for i in hs) or 'no such check')
+    oc = ctx.repo.func(OP + '.SpecificOperandsModel.operand_counts')
+    sv = [r for r in returns(oc)]
+    ok = len(sv) == 1 and isinstance(sv[0].value, (ast.ListComp, ast.GeneratorExp)) and unparse(sv[0].value.generators[0].iter) == 'self._specific_operands' \
+        and not sv[0].value.generators[0].ifs and unparse(sv[0].value.elt) == f'{unparse(sv[0].value.generators[0].target)}.operand_count'
+    ctx.check(ok, 'wellformed:specific-combination-lengths', oc.site(), 'operand_counts lists the length of every explicitly listed combination', '; '.join(unparse(r) for r in sv))
+    # relative-address ranges are not inverted
+    ri = ctx.repo.func('bespokeasm.assembler.model.operand.types.relative_address.RelativeAddressOperand.__init__')
+    rr_ = resolver(ctx, ri, inline=False)
+    hs = [i for i in walk_no_nested(ri.node) if isinstance(i, ast.If) and body_only_aborts(i.body)]
+    ok = False
+    for i in hs:
+        cl = to_cnf(i.test, True, rr_)
+        ok = ok or (frozenset({lit_cmp(ctx, ri, 'self.max_offset < self.min_offset', rr_)}) in cl and all(
+            len(c) == 1 and (next(iter(c))[0] == 'isnone' or c == frozenset({lit_cmp(ctx, ri, 'self.max_offset < self.min_offset', rr_)})) for c in cl))
+    ctx.check(ok, 'wellformed:relative-range-not-inverted', ri.site(hs[0]) if hs else ri.site(), 'a relative-address operand with max < min is rejected', 'no such check')
     for q in ('bespokeasm.assembler.model.instruction.InstructionVariant.__init__', 'bespokeasm.assembler.model.instruction_macro.InstructionMacroVariant.__init__'):
         f = ctx.repo.func(q)
         vcs = [c for c in ast.walk(f.node) if isinstance(c, ast.Call) and unparse(c.func) == 'self._operand_parser.validate']
